@@ -187,6 +187,19 @@ def hv(ctx, command, **kw):
     for x in s.get("samples", []):
         if len(ctx.samples) < 4:
             ctx.samples.append(x)
+    if not s.get("samples") and len(ctx.samples) < 4 and "in" in kw and os.path.exists(str(kw["in"])):
+        # the harness picks samples by case index; when its pick misses, show an actual input line of this run instead
+        with open(kw["in"], errors="replace") as fh:
+            for n, line in enumerate(fh):
+                m = re.match(r'<<"REPLAY", (".*")>>\s*$', line)
+                if m and n % 7 == 3:
+                    try:
+                        x = json.loads(json.loads(m.group(1)))
+                    except Exception:
+                        continue
+                    txt = json.dumps(x)
+                    ctx.samples.append(x if len(txt) < 4000 else {"truncated_case": txt[:4000]})
+                    break
     log(f"[hv] {command}: cases={s.get('cases')} evaluations={s.get('evaluations')} violations={len(s.get('violations', []))} {wall:.1f}s")
     return s
 
